@@ -155,6 +155,9 @@ def check_realign(ctx, r0, r1, c0, c1, dim_form, dtype):
         out = call(realignment, np.kron(A, B), dim_py)
         if out[0] != "ok" or not np.array_equal(out[1], np.outer(A.reshape(-1), B.reshape(-1))):
             ctx.violation("realignment(A (x) B) differs from vec(A) vec(B)^T", {"function": "realignment", "args": desc, "A": A, "B": B, "theorem": "realign_kron"})
+        outs = call(realignment, np.kron(A, B) * 2.0 ** -40, dim_py)      # linear: also at norm 1e-10
+        if outs[0] != "ok" or not np.array_equal(outs[1], np.outer(A.reshape(-1), B.reshape(-1)) * 2.0 ** -40):
+            ctx.violation("realignment(2^-40 A (x) B) differs from 2^-40 vec(A) vec(B)^T", {"function": "realignment", "args": dict(desc, scale_exp=-40), "A": A, "B": B, "theorem": "realign_linear"})
     return ok
 
 
